@@ -25,6 +25,9 @@ def run(repo, rep):
 
     mirror_families(repo, rep, "C12-b", {('scheduler', '', 'options'): 'allocator options handed to allocate_tensors'})
     rule_extents(repo, rep, "C12-a")
+    from . import c05
+
+    rep.run_borrowed(c05, {"C05-c": "C12-a"}, repo)
     sw = repo.mod("stats_writer")
     got_get = any(isinstance(n_, ast.Call) and norm(n_.func) == "nng.memory_used.get" for n_ in ast.walk(sw.tree))
     got_arg = any(isinstance(n_, ast.Call) and any(norm(a_) == "nng.memory_used" for a_ in list(n_.args) + [k_.value for k_ in n_.keywords]) for n_ in ast.walk(sw.tree))
